@@ -95,9 +95,9 @@ prop("C11", "exploration",
           "columns, orphan rows; non-trivial = at least one audit of a non-empty library; distinct = new plan digest reaching a new "
           "observation hash")
 prop("C02", "exploration",
-     quick=[("tracks_audit", "fast", 1200), ("mixed_audit", "fast", 400)],
-     thorough=[("tracks_audit", "fast", 60000), ("mixed_audit", "fast", 20000)],
-     relevant=["audits"],
+     quick=[("tracks_audit", "fast", 1200), ("mixed_audit", "fast", 400), ("foreign", "fast", 800)],
+     thorough=[("tracks_audit", "fast", 60000), ("mixed_audit", "fast", 20000), ("foreign", "fast", 60000)],
+     relevant=["audits", "foreign_read_back"],
      rule="every blob the library stores during the track workloads is read raw by a second SQLite client and decoded by refcodec "
           "(an independent implementation of the Engine layouts): frame (4-byte BE length = inflated length, one complete zlib "
           "stream, loops uncompressed) and every field against the library's own observation; non-trivial = at least one audited "
@@ -156,6 +156,36 @@ prop("C15", "exploration",
                   "once a hostile call whose effect the statement leaves open has completed (e.g. add_track of a nonexistent id), the forest/"
                   "membership model is switched off for the rest of the run; only the C15 oracles continue"],
      crash_owner=True)
+
+prop("C05", "exploration",
+     quick=[("corrupt", "san", 160), ("corrupt", "fast", 1200)],
+     thorough=[("corrupt", "san", 40000), ("corrupt", "fast", 120000)],
+     relevant=["corruptions", "page_corruptions"],
+     rule="storage-fault histories on all 18 schemas under ASan+UBSan+_GLIBCXX_ASSERTIONS: a library with fully analysed tracks (library- "
+          "and foreign-written blobs); each step damages one stored blob cell through a second SQLite connection (truncation at any "
+          "length, bit flips in the compressed stream, payload byte edits re-deflated, every embedded count/length field set to "
+          "-1/0/1/fit/fit+1/2^31/2^61/2^63-1/INT64_MIN, length prefix rewritten, trailing garbage, cut before the end marker, tiny/NULL "
+          "cells, payload truncated with an intact frame, zeroed and duplicated ranges) or flips bits in raw database pages while the "
+          "library is closed; then every reader runs: snapshot(), all getters, read-modify-write setters, track_table::get, per-column blob "
+          "getters, X_blob::from_blob on the damaged bytes; ~25-40 corruptions per run; non-trivial = at least one corruption applied "
+          "and read; distinct = new plan digest reaching a new stored-payload hash.  This is seeded structured corruption of real stored "
+          "blobs, not coverage-guided fuzzing",
+     assumptions=["a worker death (sanitizer exit code, signal, wall-clock alarm) is attributed to the run whose BEGIN line was flushed last",
+                  "termination is decided deterministically by the inflate no-progress detector and the VM-tick budget; the 60 s alarm is a backstop",
+                  "std::bad_alloc / std::length_error count as exceptions derived from std::exception (ASan runs with allocator_may_return_null=1)"],
+     crash_owner=True)
+prop("C04", "exploration",
+     quick=[("foreign", "fast", 2500), ("foreign", "san", 150)],
+     thorough=[("foreign", "fast", 120000), ("foreign", "san", 4000)],
+     relevant=["c04_preservation_checked"],
+     rule="2.x on-disk library shared with a foreign writer that stores blobs in shapes the library never produces (0..12 cue/loop entries, "
+          "flag bytes 0/1/2/128/255, unknown fields non-zero, default != adjusted grid, loudness low != mid != high, 0..64 trailing bytes, NaN "
+          "payloads) or mutates stored payloads; then histories of table-API get->update of the unchanged row, per-column blob get->set, and "
+          "every public single-field setter; before and after each write an independent reader inflates all five stored blobs and compares them "
+          "field by field: only the bytes the setter owns may differ (main-cue-adjusted byte may be normalised to 1); non-trivial = at least one "
+          "preservation comparison on a track holding foreign data; distinct = new plan digest reaching a new stored-payload hash",
+     assumptions=["set_loops and set_waveform replace their whole blob: the loops list / overview waveform is one field at the API level, so the "
+                  "whole blob counts as owned by them (the statement's read-modify-write clause is anchored at the partial setters)"])
 
 TIER_DEFAULT_SEED = {"quick": 1, "thorough": 20260929}
 
